@@ -4,7 +4,7 @@ NOT decided: that positions with a legal move score strictly inside the terminal
 from facts import callee_name
 from terms import TermBuilder, return_term, show, walk, fold, CannotFold, const_value
 import cfg
-from .common import live_calls, guards_of
+from .common import live_calls, guards_of, path_guards, return_sources
 from .c01 import is_call, variant_name, conjuncts
 
 LEVEL = "other"
@@ -69,6 +69,13 @@ def v1_bypass(ck):
             if sc:
                 shortcut_terms.append((bb, sc[0]))
                 bypass_edges += [(bb, z) for z in zero]
+        # the same shortcut nested the other way round: `if !in_check { if free_squares.any() { .. } }`
+        if is_call(c, "BitBoard::any"):
+            g = guards_of(prog, b, bb, tb)
+            if any(tk is False and is_call(gc, STATE + "is_check") and gc[2][0] == S for gc, tk in g):
+                shortcut_terms.append((bb, c))
+                true_edges = [x[1] for x in t["cases"] if x[0] == 1] or ([t["otherwise"]] if zero else [])
+                bypass_edges += [(bb, e) for e in true_edges]
     ck.floor("V1", len(ok_edges), 1, "`compute_legal_moves(state).is_empty()` decisions")
     # no value at all may be returned without that decision (or the accepted shortcut) having been taken: an early return
     # under any other condition would score terminal positions satisfying it as ordinary ones
@@ -132,16 +139,15 @@ def v2_terminal_values(ck):
     Dp = ("param", n.get("depth"))
     MATE = EV + "Evaluation::mate_in_ply"
     found = {"neg": 0, "pos": 0, "draw": 0}
-    for bb, blk in enumerate(b.blocks):
-        rets = []
-        for s in blk["stmts"]:
-            if s["k"] == "assign" and s["place"] == {"l": 0, "p": []}:
-                rets.append((tb.rvalue(s["rv"]), s["line"]))
-        t = blk["term"]
-        if t["k"] == "call" and t["dest"] == {"l": 0, "p": []} and "callee" in t:
-            rets.append((tb.call_term(t), t["line"]))
+    by_block = {}
+    for v_, bb_, line_ in return_sources(b, tb):
+        by_block.setdefault(bb_, []).append((v_, line_))
+    for bb in sorted(by_block):
+        rets = by_block[bb]
         for v, line in rets:
             g = guards_of(prog, b, bb, tb)
+            if rets and any(is_call(x, MATE) for v_, _l in rets for x in walk(v_)) or any(const_value(v_) is not None for v_, _l in rets):
+                g = g + [x for x in path_guards(prog, b, bb) if x not in g]
 
             def has(pred, truth):
                 return any(pred(c) and tk is truth for c, tk in g)
